@@ -187,6 +187,7 @@ def run(tier, replay=None):
     items = []
     byid = {}
     blocked_total = 0
+    skipped = {}
     for (stream, nf, part), r in results:
         run_.evaluations += 1
         sched = [s for s in part if s["id"] == r["id"]][0]
@@ -194,6 +195,10 @@ def run(tier, replay=None):
               "observed": {k: r[k] for k in ("frames", "realised", "blocked")}, "spec": "Framing / TraceFraming"}
         if r.get("broken"):
             raise common.Broken("replay %s: %s" % (r["id"], r["broken"]))
+        if r.get("skipped"):
+            skipped[stream] = skipped.get(stream, 0) + 1
+            run_.evaluations -= 1
+            continue
         blocked_total += r["blocked"]
         byte_oracle(run_, r, rp)
         # a schedule is non-trivial when the frames' writes really interleave in the plan
@@ -260,6 +265,7 @@ def run(tier, replay=None):
                      % (tid, hwm, json.dumps(line)), byid[tid])
     run_.exhaustive = exhaustive
     run_.extra["blocked_steps"] = blocked_total
+    run_.extra["schedules_without_that_writer"] = skipped
     run_.rule = ("schedules = all root-to-leaf paths of the unlocked Framing state graph (every interleaving of the Write "
                  "calls) per stream kind, plus ungated stress runs; non-trivial = schedules whose plan really interleaves "
                  "two frames (a frame resumed after another frame wrote) and every stress run")
